@@ -331,9 +331,11 @@ func (s *jsession) exec(op string) string {
 			}
 			s.st = "done"
 			s.snapshot()
-			return strings.Replace(snap, "st=await", "st=done", 1)
+			return strings.Replace(strings.Replace(snap, "st=await", "st=done", 1), " pa=1", " pa=0", 1)
 		}
 		s.st = "done"
+		// what the deferred pass() does after a stop is a coin toss in Go and not compared
+		return strings.Replace(s.snapshot(), " pa=1", " pa=0", 1)
 	default:
 		return "bad-op"
 	}
